@@ -490,6 +490,12 @@ class Interp(Ops):
         rep = self._repeat_comprehension(node)
         if rep is not None:
             return rep
+        if len(node.generators) == 1 and not node.generators[0].ifs and isinstance(node.generators[0].target, ast.Name):
+            it = self.ev(node.generators[0].iter)
+            if isinstance(it, Abstract) and hasattr(it, "iter_protocol"):
+                lo, hi, stepv, getter = it.iter_protocol(self)
+                if concrete_int(stepv) == 1 and (concrete_int(lo) is None or concrete_int(hi) is None):
+                    return SymGen(lo, hi, getter, node.generators[0].target, node.elt, self.frame)
         return PyList(self.comprehension(node.elt, node.generators, node))
 
     def _repeat_comprehension(self, node):
